@@ -128,7 +128,7 @@ def invariant(ctx, im, where, first_level=True):
     """State invariant; returns False if the geometry is broken (the history is then not extended)."""
     g = geom(im)
     px = g["pixel_size"]
-    tol = 1e-9 * max(1.0, px)
+    tol = 1e-9 * px + 8 * 2.3e-16 * max(abs(v) for v in g["birth_range"] + g["pers_range"])   # relative to the PIXEL (+ a few ulps of the coordinates)
     ok = True
     bad = lambda sig, msg, o=None, e=None: ctx.violation(sig, "%s [%s]" % (msg, where), observed=o, expected=e, extra={"geometry": g})  # noqa: E731
     ctx.valid(3)
@@ -155,12 +155,13 @@ def invariant(ctx, im, where, first_level=True):
     probe.add((n0 // 2, n1 // 2))
     probe = sorted(probe)
     pts = np.array([[g["birth_range"][0] + (i + 0.5) * px, g["pers_range"][0] + (j + 0.5) * px] for i, j in probe])
-    saved_w = (im.weight, im.weight_params)
+    saved_w = (im.weight, im.weight_params, im.kernel_params)
     im.weight, im.weight_params = unit_weight, {}      # the probe needs unit weights; the imager's own weight is restored below
+    im.kernel_params = {"sigma": (px / 40.0) ** 2}       # ... and a kernel that is narrow RELATIVE TO THE PIXEL
     try:
         return _probe(ctx, im, g, px, n0, n1, probe, pts, bad, ok, first_level)
     finally:
-        im.weight, im.weight_params = saved_w
+        im.weight, im.weight_params, im.kernel_params = saved_w
 
 
 def _probe(ctx, im, g, px, n0, n1, probe, pts, bad, ok, first_level):
@@ -218,7 +219,7 @@ def _probe(ctx, im, g, px, n0, n1, probe, pts, bad, ok, first_level):
 
 
 def covers(ctx, sig, what, asked_lo, asked_hi, got_lo, got_hi, px, where, extra):
-    tol = 1e-9 * max(1.0, px)
+    tol = 1e-9 * px + 8 * 2.3e-16 * max(abs(asked_lo), abs(asked_hi), abs(got_lo), abs(got_hi))
     ctx.valid()
     if got_lo > asked_lo + tol or got_hi < asked_hi - tol:
         ctx.violation(sig + "-not-contained", "%s is not contained in the covered range [%s]" % (what, where),
@@ -259,8 +260,11 @@ def apply_op(ctx, im, op, where):
         for ax in ("birth_range", "pers_range"):
             covers(ctx, "pixel-size-" + ax, "the %s covered before the pixel-size change" % ax, before[ax][0], before[ax][1],
                    g[ax][0], g[ax][1], g["pixel_size"], where, {"before": before, "after": g})
-    elif op[0] in ("fit", "fit_transform", "fit_buf", "fit_listbuf"):
-        if op[0] in ("fit_buf", "fit_listbuf"):
+    elif op[0] in ("fit", "fit_transform", "fit_buf", "fit_listbuf", "fit_u"):
+        if op[0] == "fit_u":
+            dg = [a * op[3] for a in data_arrays(op[1])]
+            arg = dg[0] if len(dg) == 1 else dg
+        elif op[0] in ("fit_buf", "fit_listbuf"):
             arg, dg = buffered_arg(im, op)
         else:
             dg = data_arrays(op[1])
@@ -291,7 +295,7 @@ def apply_op(ctx, im, op, where):
 def unchanged(ctx, before, after, keys, res_index, where):
     ctx.valid()
     for k in keys:
-        if before[k] != after[k] and not np.allclose(before[k], after[k], rtol=0, atol=1e-9):
+        if before[k] != after[k] and not np.allclose(before[k], after[k], rtol=1e-12, atol=1e-9 * before["pixel_size"]):
             ctx.violation("other-axis-changed", "assigning one range changed %s of the other axis [%s]" % (k, where),
                           observed=after[k], expected=before[k])
     if before["resolution"][res_index] != after["resolution"][res_index]:
@@ -335,7 +339,10 @@ def run_history(case, ctx):
 
 
 def silent_apply(im, op):
-    if op[0] in ("fit_buf", "fit_listbuf"):
+    if op[0] == "fit_u":
+        dg = [a * op[3] for a in data_arrays(op[1])]
+        im.fit(dg[0] if len(dg) == 1 else dg, skew=op[2])
+    elif op[0] in ("fit_buf", "fit_listbuf"):
         im.fit(buffered_arg(im, op)[0], skew=op[2])
     elif op[0] in ("fit", "fit_transform"):
         dg = data_arrays(op[1])
@@ -360,7 +367,26 @@ DEEP_OPS = [["birth_range", [0, 1.00001]], ["pers_range", [-0.5, 0.7]], ["pixel_
             ["fit", "c", True], ["fit", "b", False], ["fit_transform", "a", True], ["birth_range", [0.1, 0.8]]]
 
 
+UNITS = [1e-6, 1e-9, 1e-12, 1e5]
+
+
+def unit_jobs():
+    """Imagers in other physical units (pixel sizes around 1e-7 .. 1e-13 and 1e4): the same geometry laws, relative
+    to the pixel.  Own small alphabet (ranges, pixel sizes and data in the same unit)."""
+    jobs = []
+    for u in UNITS:
+        inits_u = [{"birth_range": [0.0, 3 * u], "pers_range": [0.0, u], "pixel_size": 0.1 * u},
+                   {"birth_range": [-0.5 * u, 0.7 * u], "pers_range": [0.1 * u, 0.8 * u], "pixel_size": 0.3 * u}]
+        ops_u = [["birth_range", [0.1 * u, 0.8 * u]], ["pers_range", [0.0, 1.00001 * u]], ["pixel_size", 0.7 * u], ["pixel_size", u / 3.0],
+                 ["fit_u", "c", True, u], ["fit_u", "b", False, u]]
+        jobs.append((inits_u, ops_u))
+    return jobs
+
+
 def run_shard(ctx):
+    for jx, (inits_u, ops_u) in enumerate(unit_jobs()):
+        if jx % ctx.nshards == ctx.shard:
+            history.bfs(ctx, _M, inits_u, ops_u, 2 if ctx.tier == "quick" else 3, run_history)
     mine = [x for i, x in enumerate(inits()) if i % ctx.nshards == ctx.shard]
     depth = 2 if ctx.tier == "quick" else 4
     history.bfs(ctx, _M, mine, OPS, depth, run_history)
